@@ -82,6 +82,12 @@ func (in *objIndex) UnmarshalJSON(data []byte) error {
 		return err
 	}
 
+	for name, fi := range tmp.Fields {
+		if fi == nil {
+			return fmt.Errorf("field index %s is null", name)
+		}
+	}
+
 	in.i = 0
 	in.Fields = tmp.Fields
 	in.ObjectIds = tmp.ObjectIds
